@@ -206,12 +206,12 @@ Theorem hansenlaw_linear m dr pi K tabs a b h w X Y : wfR h w X -> wfR h w Y ->
   hl_imageR m dr pi K tabs (icomb a b X Y) =
   icomb a b (hl_imageR m dr pi K tabs X) (hl_imageR m dr pi K tabs Y).
 Proof.
-  intros [HX FX] [HY FY]. unfold hl_imageR, hl_image, icomb.
-  revert h Y HX HY FY. induction X as [|r X IH]; intros h [|s Y] HX HY FY; simpl in *; auto; try congruence.
-  inversion FX; inversion FY; subst.
+  intros [HX FX] [HY FY]. unfold hl_imageR, hl_image, icomb. subst h.
+  revert FX Y HY FY. induction X as [|r X IH]; intros FX [|s Y] HY FY; simpl in *; auto; try discriminate.
+  inversion FX as [|? ? Hr FX']; inversion FY as [|? ? Hs FY']; subst.
   f_equal.
   - fold hl_rowR. apply hansenlaw_row_linear. congruence.
-  - destruct h; try discriminate. apply (IH H2 h); auto; lia.
+  - apply IH; auto.
 Qed.
 
 (* each output row depends on the same input row only: the image transform
